@@ -21,52 +21,36 @@ RULE = ("(1) spec on the real engine: operations from the fedlab operation gener
         "announced or a nested id is announced by a later frame (spec) / the plan has at least two descriptors (corr).")
 
 KEYS = {
-    "defer-null-data-pending":
-        "initial frame has data:null (root non-null violation) but still announces pending ids with hasNext:true and later delivers incremental payloads into the null data",
-    "defer-silent-completion-drops-errors":
-        "a deferred group whose subgraph answer nulls its anchor (or an ancestor) is completed with an empty incremental list and no errors: the error is dropped and the client keeps the stale object",
     "defer-merged-field-lost":
         "two sibling (not nested) @defer fragments select the same object field with different sub-selections: the merged field keeps one defer id and the other fragment's sub-fields are fetched but never delivered",
     "defer-under-typed-list-dropped":
         "a @defer below a list field that was selected under a type condition on an abstract type is never announced nor delivered (deferInfoCollector.outermostListFieldIndex gives up, the descriptor path runs through the list and the anchor reads as dead)",
-    "defer-nested-list-dropped":
-        "a @defer inside the items of a list of lists is announced and completed with an empty incremental list: fieldNodeKindAllowsSeek does not enter nested lists",
-    "defer-failed-parent-announces-children":
-        "a deferred group that fails (completed with errors, no incremental data) still announces its nested defers; their items are then delivered at subPaths inside objects the client never received",
-    "defer-label-unique-false-positive":
-        "DeferStreamHaveUniqueLabels reports a label as duplicated against itself when a sibling field carries @skip/@include with a variable",
     "defer-planner-empty-selection":
         "planning fails with 'selection set on path ... is empty' only when @defer is present (deferred entity field whose only non-deferred sibling is nested deferred)",
 }
 
 
 def classify(case, detail):
+    # the renderer / validation findings (null data announcing pending, silent completion, failed parent
+    # announcing children, nested lists, label uniqueness) were repaired (work/c10_fix_*.patch, fixed: lines
+    # in KNOWN_FINDINGS.txt): their corpus cases are passing regressions and have no mapping any more
     d = detail
     if d.startswith("exec_error"):
-        if "must be unique" in d:
-            return "defer-label-unique-false-positive"
         if "selection set on path" in d and "is empty" in d:
             return "defer-planner-empty-selection"
         return None
     if d.startswith("reconstruct"):
         m = re.search(r"\[d0=(\w+) silent=(\d+) failed=(\d+) monoerr=(\d+) diag=([\w-]*)\]", d)
         if not m:
-            # corr-mode reconstruct failure (hand-built plan): only the nested-list limitation is known
-            if case.startswith("(c10corr") and re.search(r"\(arr \([^)]*\) [tf] \(arr ", case):
-                return "defer-nested-list-dropped"
             return None
         d0, silent, failed, monoerr, diag = m.group(1), int(m.group(2)), int(m.group(3)), int(m.group(4)), m.group(5)
-        if d0 == "null":
-            return "defer-null-data-pending"
-        if "addresses nothing in the data delivered so far" in d and failed > 0:
-            return "defer-failed-parent-announces-children"
-        if diag == "nested-list":
-            return "defer-nested-list-dropped"
-        if diag == "typed-list":
+        if d0 == "null" or diag == "nested-list":
+            return None
+        if diag == "typed-list" and "missing in the reconstruction" in d:
             return "defer-under-typed-list-dropped"
-        if monoerr > 0 and silent > 0:
-            return "defer-silent-completion-drops-errors"
-        if silent == 0 and failed == 0 and ("missing in the reconstruction" in d):
+        # the losing fragment of a merged field may be left without any field: it is then completed with an
+        # empty incremental list; at least two @defer are needed for a merge
+        if diag == "" and ("missing in the reconstruction" in d) and case.count("@defer") >= 2:
             return "defer-merged-field-lost"
         return None
     return None
